@@ -3,7 +3,7 @@
 import json, subprocess
 
 WX_NOTE = ("Trusted base: the reference model (harness/sim/model.go) as a reading of the documentation; the canonical state dump "
-           "and invariant checker compiled into ecs under build tag verif (a reflection self-test fails the check if a struct field is not covered); "
+           "and invariant checker compiled into ecs under build tag verif (a reflection self-test reports struct fields the dump does not cover and marks the run non-exhaustive); "
            "Go runtime. Bounded: at most K handles per epoch and small component/filter menus per scenario; scenarios that do not reach a fixpoint "
            "are exhaustive up to the completed depth reported in the evidence file.")
 
@@ -24,18 +24,18 @@ checks = {
  "C06": ("wx", "explicit-state BFS over table-lifecycle alphabets (target death, retirement, re-use, self targets, batch removal, Reset) vs reference model + structural invariants", "§4 C06"),
  "C07": ("wx", "explicit-state BFS with Register/Unregister as ordinary operations; cached vs model-evaluated selection on every state, batch ops through cached and plain filter", "§4 C07"),
  "C08": ("wx", "explicit-state BFS; every batch transition is compared with the model's loop of single-entity operations (state, count, Q-query contents)", "§4 C08"),
- "C09": ("wx", "explicit-state BFS over open-query (lock) states of a fixed world with a generated table of ~70 structural entry points called at every locked state and inside removal listeners + exhaustive linear sweeps over the number of open queries; both builds", "§4 C09"),
+ "C09": ("wx", "explicit-state BFS over open-query (lock) states of a fixed world with a generated table of ~90 structural entry points called at every locked state and inside removal listeners, read-only calls and rejected LoadEntities/registration probes + exhaustive linear sweeps over the number of open queries; both builds", "§4 C09"),
  "C10": ("wx", "explicit-state BFS with every illegal-argument class as ordinary transitions at every reachable state; must panic, state oracle afterwards", "§4 C10"),
- "C11": ("wx", "explicit-state BFS with a recording listener; per transition the event multiset is compared with the model diff, delivery-time conditions checked", "§4 C11"),
+ "C11": ("wx", "explicit-state BFS with a recording listener; per transition the event multiset is compared with the model diff; at delivery time lock state, the entity's components/target/values and the state of all other entities are compared with the operation's result", "§4 C11"),
  "C12": ("wx", "explicit-state BFS; for the last operation of every history all 64 subscription masks x component restrictions and Dispatch compositions are replayed and compared with the documented selection of the full event stream", "§4 C12"),
  "C13": ("wx", "explicit-state BFS with replay-determinism guard (state key + transcript hash on every replay) + cross-process comparison of canonical per-level digests under different GC regimes", "§4 C13"),
  "C14": ("wx+model", "call-site matrix on the real runtime + BFS over histories with a full collection after every operation + exhaustive exploration of a tri-colour collector model against memory traces recorded from the implementation", "§4 C14"),
  "C15": ("wx", "explicit-state BFS over pairs (reset world, fresh world with the same registrations) in lock-step: identical handles and outcomes, both checked against the model", "§4 C15"),
- "C16": ("enum", "exhaustive enumeration of registration counts 0..limit+1 with re-lookups + deviation-bounded enumeration of registration/table-creation schedules; both builds", "§4 C16"),
- "C17": ("wx", "explicit-state BFS over entity-only worlds; dump/load pairs in lock-step (fresh worlds with capacity increment 1/2/128 and a reset world), kept dumps loaded later, JSON round trips", "§4 C17"),
- "C18": ("enum", "exhaustive enumeration of filter-builder call sequences (bounded length) and of all Map methods x arities 1..12 x 2 variants, each executed on the real generic API and compared with the ID-based core on a twin world", "§4 C18"),
+ "C16": ("enum", "exhaustive enumeration of registration counts 0..limit+1 with re-lookups + deviation-bounded enumeration of registration/table-creation schedules + agreement of the generic and reflect-based entry points over 16 kinds of types x first-use orders; both builds", "§4 C16"),
+ "C17": ("wx", "explicit-state BFS over entity-only worlds; dump/load pairs in lock-step (fresh worlds with capacity increment 1/2/128, a reset world, an emptied and twice reset world), kept dumps loaded later, JSON round trips", "§4 C17"),
+ "C18": ("enum", "exhaustive enumeration of filter-builder call sequences (bounded length) and of all Map methods x arities 1..12 x 2 variants, the full generic.Exchange matrix (configuration x action x entity x target), each executed on the real generic API and compared with the ID-based core on a twin world", "§4 C18"),
  "C19": ("enum", "exhaustive enumeration of merge orders of pairs of histories on two real worlds (different registration orders), transcripts compared with solo runs + separate free-running race-detector pass over the same bodies", "§4 C19"),
- "C20": ("wx", "explicit-state BFS to fixpoint over resource/lock/entity states vs a map model through all three access paths + linear sweep over all resource IDs; both builds", "§4 C20"),
+ "C20": ("wx", "explicit-state BFS to fixpoint over resource/lock/entity states vs a map model through all three access paths incl. long-lived generic mappers touched only by explicit operations + linear sweep over all resource IDs (T and *T types); both builds", "§4 C20"),
 }
 
 manifest = {
